@@ -52,16 +52,18 @@ class FieldMappingTracking(UserDict[str | None, set[str]]):
 
         if source in self.target_fields:  # Source field was already mapping target.
             # Replace each occurrence of a mapping to the source with the target field.
-            for source_field in self.target_fields[source]:
+            source_fields = self.target_fields[source]
+            for source_field in source_fields:
                 target_set = self[source_field]
                 if source is not None:
                     target_set.remove(source)
                 target_set.update(target)
 
-            # Update reverse mapping: remove source and add new target
+            # Update reverse mapping: remove source and add new target for ALL fields that were
+            # mapped to the source
             del self.target_fields[source]
             for t in target:
-                self.target_fields[t].add(source_field)
+                self.target_fields[t].update(source_fields)
 
         if source not in self:
             self[source] = set(target)
